@@ -167,11 +167,26 @@ def run(ctx):
         def sources(e_, tof):
             if sx.is_call(e_, 'error_position'):
                 return {'pos'}
+            # arithmetic on the failure position yields a NEIGHBOURING position, no longer the position itself
+            if e_.get('k') == 'binary' and e_['op'] in ('+', '-', '*', '/', '%'):
+                t_ = tof(e_['l_']) | tof(e_['r'])
+                if 'pos' in t_:
+                    return (t_ - {'pos'}) | {'pos~'}
+                return None
+            if e_.get('k') == 'mcall' and e_['m'] in ('saturating_sub', 'checked_sub', 'wrapping_sub', 'saturating_add', 'checked_add', 'wrapping_add', 'min', 'max', 'pred', 'succ'):
+                t_ = tof(e_['recv'])
+                for a_ in e_['args']:
+                    t_ = t_ | tof(a_)
+                if 'pos' in t_:
+                    return (t_ - {'pos'}) | {'pos~'}
+                return None
             if e_.get('k') == 'mcall' and e_['m'] == 'origin' and len(e_['args']) == 1:
                 rt = tof(e_['recv'])
                 at = tof(e_['args'][0])
                 if 'text' in rt and 'pos' in at:
                     return {'origin'}
+                if 'text' in rt and 'pos~' in at:
+                    return {'origin-of-neighbour'}
                 if 'text' in rt:
                     return {'origin-of-constant'}
                 return {'origin-of-other-text'}
@@ -187,6 +202,11 @@ def run(ctx):
             w3.undecided('%s:parse_%s_pp:error-mapping' % (API, g), where(f), 'no Error::Parse(..) construction found in parse_%s_pp itself' % g)
         for en, args_t in errs:
             tt = args_t[0]
+            if 'origin-of-neighbour' in tt:
+                w3.fail('%s:parse_%s_pp:error-mapping' % (API, g), where(f),
+                        'the location of a parse failure is looked up at a position COMPUTED from the failure position (such as pos - 1), not at the position itself: the '
+                        'neighbouring byte can belong to another segment — another file, a macro body, or text without origin — so the reported file is wrong or missing')
+                continue
             if 'origin' in tt:
                 continue
             if 'origin-of-constant' in tt or 'origin-of-other-text' in tt:
